@@ -31,7 +31,7 @@ func init() {
 		Gen: func(r *Rng, tier string, seed uint64) interface{} {
 			w := &c10vW{N: []int{10001, 12000}[r.Intn(2)], M: 1 + r.Intn(300)}
 			if tier == "thorough" {
-				w.N = []int{9999, 10000, 10001, 12000, 20001, 31000}[r.Intn(6)]
+				w.N = []int{9999, 10000, 10001, 12000, 20001, 31000, 120000}[r.Intn(7)] // 120 000 sets: beyond Badger's transaction size
 			}
 			return w
 		},
